@@ -11,6 +11,10 @@
 (*   major  LinesearchMethod announces MajorIteration                                       *)
 (*   fail   LinesearchMethod returns an error (run over)                                    *)
 (*   end    the run stops for a reason outside the line search (limits, thresholds)         *)
+(*   reinit LinesearchMethod.Init is called again on the SAME LinesearchMethod value (and the  *)
+(*          same Linesearcher / NextDirectioner values) after a run was stopped anywhere -     *)
+(*          in particular while the evaluation completing an accepted step was outstanding -   *)
+(*          or failed: the next run starts from the state of a fresh value                     *)
 (*                                                                                          *)
 (* Real-valued data never enter the model.  Every event carries the truth values of the      *)
 (* inequalities the documentation names, computed at the logging boundary from the values    *)
@@ -45,6 +49,7 @@ CONSTANTS Kinds,      \* Linesearcher kinds explored by the model (R1/R2)
           WithH,      \* locations carry a Hessian (complement includes "H")
           MaxIter,    \* bound on Linesearcher.Iterate calls in one behaviour (R1/R2)
           MaxSearch,  \* bound on line searches in one behaviour (R1/R2)
+          MaxRuns,    \* runs made with one LinesearchMethod value in one behaviour (R1/R2)
           Emit        \* R2: print every complete behaviour
 
 VARIABLES ph,       \* "idle" | "eval" | "ready" | "finish" | "lserr" | "stopped"
@@ -57,10 +62,11 @@ VARIABLES ph,       \* "idle" | "eval" | "ready" | "finish" | "lserr" | "stopped
           tinyp,    \* flag: the pending trial point equals the start point (0/1/2)
           perr,     \* error the Linesearcher returned
           bounded,  \* a trial step above the current one exists (bracket closed)
-          nit, nls, nmaj,
+          nit, nls, nmaj,  \* bookkeeping of the bounded model (counted over all runs of a behaviour)
+          nrun,     \* number of the run made with this LinesearchMethod value
           h         \* history (R2 only)
 
-vars == <<ph, ls, ev, want, pend, acc, first, tinyp, perr, bounded, nit, nls, nmaj, h>>
+vars == <<ph, ls, ev, want, pend, acc, first, tinyp, perr, bounded, nit, nls, nmaj, nrun, h>>
 
 AllKinds == {"backtracking", "bisection", "morethuente", "script"}
 Full == IF WithH THEN {"F", "G", "H"} ELSE {"F", "G"}
@@ -87,6 +93,17 @@ Hist(e) == h' = IF Emit THEN Append(h, e) ELSE h
 Start(k) ==
     /\ ph' = "idle" /\ ls' = k /\ ev' = Full /\ want' = {} /\ pend' = "none" /\ acc' = NoAcc
     /\ first' = TRUE /\ tinyp' = 0 /\ perr' = "" /\ bounded' = FALSE /\ nit' = 0 /\ nls' = 0 /\ nmaj' = 0
+    /\ nrun' = 1
+
+\* LinesearchMethod.Init on a value that has been used: the protocol state of a fresh value.  Nothing
+\* of the stopped run survives: no pending conclusion (pend), no evaluation still wanted, the
+\* location handed to Init is complete, the first direction comes from InitDirection again.
+ReInit(e) ==
+    /\ e.k = "reinit" /\ ph = "stopped"
+    /\ ph' = "idle" /\ ev' = Full /\ want' = {} /\ pend' = "none" /\ acc' = NoAcc
+    /\ first' = TRUE /\ tinyp' = 0 /\ perr' = "" /\ bounded' = FALSE
+    /\ nrun' = nrun + 1
+    /\ UNCHANGED <<ls, nit, nls, nmaj>>
 
 \* Linesearcher.Init, called by LinesearchMethod.initNextLinesearch
 InitLS(e) ==
@@ -99,7 +116,7 @@ InitLS(e) ==
     /\ MayNot(e.g0nonneg) /\ May(e.steppos) /\ May(e.stepeq) /\ May(e.f0eq) /\ May(e.g0eq)
     /\ ph' = "eval" /\ want' = OpSet(e.op) /\ ev' = {} /\ pend' = "search" /\ first' = FALSE
     /\ tinyp' = e.tiny /\ bounded' = FALSE /\ nls' = nls + 1 /\ acc' = NoAcc
-    /\ UNCHANGED <<ls, perr, nit, nmaj>>
+    /\ UNCHANGED <<ls, perr, nit, nmaj, nrun>>
 
 \* LinesearchMethod hands an evaluation to its driver
 Eval(e) ==
@@ -109,7 +126,7 @@ Eval(e) ==
     /\ May(e.xeq)                                   \* the point is start + step * dir
     /\ ev' = ev \cup want /\ want' = {} /\ tinyp' = 0
     /\ ph' = IF pend = "search" THEN "ready" ELSE "finish"
-    /\ UNCHANGED <<ls, pend, acc, first, perr, bounded, nit, nls, nmaj>>
+    /\ UNCHANGED <<ls, pend, acc, first, perr, bounded, nit, nls, nmaj, nrun>>
 
 IterErr(e) ==
     /\ e.res \in ErrNames
@@ -158,14 +175,14 @@ Iter(e) ==
                          /\ e.geq = (IF "G" \in ev THEN 1 ELSE 0) /\ e.gnan = 1 - e.geq)
     /\ nit' = nit + 1
     /\ (IterErr(e) \/ IterMajor(e) \/ IterCont(e))
-    /\ UNCHANGED <<ls, first, nls, nmaj>>
+    /\ UNCHANGED <<ls, first, nls, nmaj, nrun>>
 
 \* LinesearchMethod announces MajorIteration
 Major(e) ==
     /\ e.k = "major" /\ ph = "finish" /\ want = {}
     /\ May(e.feq) /\ May(e.xeq)
     /\ ph' = "idle" /\ pend' = "none" /\ nmaj' = nmaj + 1
-    /\ UNCHANGED <<ls, ev, want, acc, first, tinyp, perr, bounded, nit, nls>>
+    /\ UNCHANGED <<ls, ev, want, acc, first, tinyp, perr, bounded, nit, nls, nrun>>
 
 \* LinesearchMethod returns an error
 Fail(e) ==
@@ -174,15 +191,15 @@ Fail(e) ==
        \/ ph = "idle" /\ e.err = "nondescent" /\ May(e.g0nonneg)
        \/ ph = "eval" /\ ev = {} /\ e.err = "noprogress" /\ May(tinyp)
     /\ ph' = "stopped"
-    /\ UNCHANGED <<ls, ev, want, pend, acc, first, tinyp, perr, bounded, nit, nls, nmaj>>
+    /\ UNCHANGED <<ls, ev, want, pend, acc, first, tinyp, perr, bounded, nit, nls, nmaj, nrun>>
 
 \* the run is stopped from outside (limit, threshold, recorder)
 End(e) ==
     /\ e.k = "end" /\ ph \notin {"lserr", "stopped"} /\ MayNot(tinyp)
     /\ ph' = "stopped"
-    /\ UNCHANGED <<ls, ev, want, pend, acc, first, tinyp, perr, bounded, nit, nls, nmaj>>
+    /\ UNCHANGED <<ls, ev, want, pend, acc, first, tinyp, perr, bounded, nit, nls, nmaj, nrun>>
 
-Step(e) == InitLS(e) \/ Eval(e) \/ Iter(e) \/ Major(e) \/ Fail(e) \/ End(e)
+Step(e) == InitLS(e) \/ Eval(e) \/ Iter(e) \/ Major(e) \/ Fail(e) \/ End(e) \/ ReInit(e)
 
 ----------------------------------------------------------------------------
 (* Event domains of the model (R1: every flag value; R2 "script": the deterministic ones) *)
@@ -241,10 +258,11 @@ FailEvents ==
            x \in {"lsfailure", "lsbound", "other", "nondescent", "noprogress"}, g \in T}
 
 EndEvent == [k |-> "end"]
+ReInitEvent == [k |-> "reinit"]
 
-\* R2: a behaviour is complete when the run is over; it is printed with the transition that ends it
+\* R2: a behaviour is complete when its last run is over; it is printed with the transition that ends it
 EmitRun(e) ==
-    IF Emit /\ ph' = "stopped"
+    IF Emit /\ ph' = "stopped" /\ nrun >= MaxRuns
     THEN PrintT(ToJson([ls |-> ls, withH |-> IF WithH THEN 1 ELSE 0, ev |-> Append(h, e)]))
     ELSE TRUE
 
@@ -252,7 +270,7 @@ Do(e) == Step(e) /\ Hist(e) /\ EmitRun(e)
 
 Init == /\ \E k \in Kinds : /\ ph = "idle" /\ ls = k
         /\ ev = Full /\ want = {} /\ pend = "none" /\ acc = NoAcc /\ first = TRUE /\ tinyp = 0
-        /\ perr = "" /\ bounded = FALSE /\ nit = 0 /\ nls = 0 /\ nmaj = 0 /\ h = <<>>
+        /\ perr = "" /\ bounded = FALSE /\ nit = 0 /\ nls = 0 /\ nmaj = 0 /\ nrun = 1 /\ h = <<>>
 
 Next ==
     \/ /\ ph = "idle" /\ nls < MaxSearch /\ nit < MaxIter /\ \E e \in InitEvents : Do(e)
@@ -264,7 +282,15 @@ Next ==
     \* in R1 End is also explored everywhere, see NextR1)
     \/ /\ \/ ph = "ready" /\ nit >= MaxIter
           \/ ph = "idle" /\ (nls >= MaxSearch \/ nit >= MaxIter)
+          \* a run that is not the last one of the behaviour is stopped anywhere: between a trial
+          \* evaluation and Iterate, while the complement of an accepted step is outstanding, ...
+          \* (not before its first line search: Init starts that one itself; and only while the bounds
+          \* leave room for another run)
+          \/ /\ nrun < MaxRuns /\ nls < MaxSearch /\ nit < MaxIter
+             /\ (ph \in {"eval", "ready", "finish"} \/ (ph = "idle" /\ ~first))
        /\ Do(EndEvent)
+    \* ... and the same LinesearchMethod value is initialised again
+    \/ /\ ph = "stopped" /\ nrun < MaxRuns /\ nls < MaxSearch /\ nit < MaxIter /\ Do(ReInitEvent)
 
 NextR1 == Next \/ Do(EndEvent)
 
@@ -277,7 +303,7 @@ TypeOK ==
     /\ ph \in {"idle", "eval", "ready", "finish", "lserr", "stopped"}
     /\ ls \in AllKinds /\ ev \subseteq Full /\ want \subseteq Full
     /\ pend \in {"none", "search", "finish"} /\ tinyp \in T /\ perr \in ErrNames \cup {""}
-    /\ bounded \in BOOLEAN /\ first \in BOOLEAN
+    /\ bounded \in BOOLEAN /\ first \in BOOLEAN /\ nrun >= 1
 
 \* the Linesearcher concluded: its advertised conditions are not known to be false at the step
 \* they were evaluated at, everything they mention was evaluated there, and the step is positive
@@ -307,5 +333,12 @@ MajorOnlyWhenSound ==
 
 \* a Linesearcher error is never followed by anything but the end of the run
 ErrIsFinal == [][ph = "lserr" => ph' \in {"lserr", "stopped"}]_vars
-StoppedIsFinal == [][ph = "stopped" => ph' = "stopped"]_vars
+\* a stopped run is only ever followed by a new run on the same value, and that run starts from the
+\* state of a fresh value: whatever was pending when the run was stopped is gone
+StoppedIsFinal == [][ph = "stopped" => (ph' = "stopped" \/ nrun' = nrun + 1)]_vars
+ReInitIsStart == [][nrun' = nrun + 1 =>
+                      /\ ph = "stopped" /\ ph' = "idle" /\ pend' = "none" /\ want' = {} /\ ev' = Full
+                      /\ first' /\ ~acc'.set /\ ~bounded' /\ perr' = "" /\ tinyp' = 0]_vars
+\* no MajorIteration in a run before a Linesearcher of that run has concluded
+NoMajorWithoutConclusion == (pend = "none" /\ ph # "stopped") => ph = "idle"
 =============================================================================
